@@ -40,6 +40,10 @@ def gen_cases(rng, tier: str) -> list[dict]:
         if h % 2 == 1:
             for ops in H.domain_prefixes(rng, pool):
                 cases.append({"origin": "domain-border", "pool": texts, "ops": ops + H.random_ops(rng, pool, 2)})
+        if h % 3 == 2:
+            pool4 = H.offender_pool(rng)
+            cases.append({"origin": "offender", "pool": H.pool_to_wire(pool4),
+                          "ops": H.repeated_simplification(rng, pool4)[: 14] + H.random_ops(rng, pool4, 4)})
         if h % 2 == 0:
             pool2 = H.sum_pool(rng) if h % 4 == 0 else pool
             cases.append({"origin": "resimplify", "pool": H.pool_to_wire(pool2),
@@ -59,7 +63,7 @@ def check_cases(cases: list[dict], rep: Report, known: dict) -> None:
         for k, op in enumerate(c["ops"]):
             rep.evaluations += 1
             rep.count("ops", op["op"])
-            e = pool[op["i"]]
+            e = pool[op["i"]] if op["i"] < len(pool) else pool[0]
             # heap tie: actual memo contents before the operation
             heap_req = None
             if op["op"] in HEAP_OPS:
@@ -79,7 +83,7 @@ def check_cases(cases: list[dict], rep: Report, known: dict) -> None:
             with common.WarnCatcher() as w1:
                 got = hist.do(op)
             with common.WarnCatcher() as w2:
-                want = H.fresh_result(c["pool"], op, src, before)
+                want = H.fresh_result(c["pool"] + hist.extra_texts, op, src, before)
             done.append(op)
             info = {"origin": c["origin"], "pool": c["pool"], "ops": done[:], "failing_op": k,
                     "history": repr(got)[:300], "fresh": repr(want)[:300]}
